@@ -97,7 +97,7 @@ def body(ctx, case):
                                                             "" if ambient == 15 else
                                                             " [ambient mpmath precision: %d digits]" % ambient),
                  case)
-    if not all(type(v) is int for v in got):
+    if not all(isinstance(v, int) and not isinstance(v, bool) for v in got):
         ctx.fail("calculate_lm returned non-integers %r" % (got,), case)
     if info.get("cannot_move"):
         return
